@@ -7,7 +7,7 @@ set_option linter.unusedSectionVars false
 set_option linter.unusedSimpArgs false
 namespace Eru.Cluster2
 open Eru.Cluster (ResAlg)
-variable {R : Type} [ResAlg R]
+variable {R : Type} [ResAlg R] {ex : Nat → Prop}
 
 theorem pendingProc_iff (evs : List Ev) (n : String) : pendingProc evs n = true ↔ Ev.processing n ∈ evs := by
   simp [pendingProc]
@@ -21,18 +21,18 @@ theorem covered_iff (evs : List Ev) (n : String) : covered evs n = true ↔ ∃ 
   simp [covered]
 
 /-- the invariant only looks at usage, records, containers and markers, and is monotone in the events -/
-theorem InvG.mono {s : St R} {evs evs' : List Ev} (h : InvG s evs)
+theorem InvG.mono {s : St R} {evs evs' : List Ev} (h : InvG ex s evs)
     (hc : ∀ n, covered evs n = true → covered evs' n = true)
     (hp : ∀ n, pendingProc evs n = true → pendingProc evs' n = true)
-    (hk : ∀ i, pendingCreated evs i = true → pendingCreated evs' i = true) : InvG s evs' :=
+    (hk : ∀ i, pendingCreated evs i = true → pendingCreated evs' i = true) : InvG ex s evs' :=
   ⟨fun n => (h.usage n).imp id (hc n), fun m hm => hp _ (h.marker m hm),
-   fun i h1 h2 => hk _ (h.inst i h1 h2), h.nodup⟩
+   fun i hne h1 h2 => hk _ (h.inst i hne h1 h2), h.nodup⟩
 
-theorem InvG.append {s : St R} {evs : List Ev} (h : InvG s evs) (e : Ev) : InvG s (evs ++ [e]) :=
+theorem InvG.append {s : St R} {evs : List Ev} (h : InvG ex s evs) (e : Ev) : InvG ex s (evs ++ [e]) :=
   h.mono (fun n hn => by simp [covered_append, hn]) (fun n hn => by simp [pendingProc_append, hn])
     (fun i hi => by simp [pendingCreated_append, hi])
 
-theorem InvG.setWal {s : St R} {evs : List Ev} (h : InvG s evs) (w : List Ev) : InvG { s with wal := w } evs :=
+theorem InvG.setWal {s : St R} {evs : List Ev} (h : InvG ex s evs) (w : List Ev) : InvG ex { s with wal := w } evs :=
   ⟨h.usage, h.marker, h.inst, h.nodup⟩
 
 theorem runningCt_start_mono (cts : List Ct) (id j : Nat)
@@ -45,8 +45,8 @@ theorem runningCt_start_mono (cts : List Ct) (id j : Nat)
   · simp_all
   · simp only [hid, if_false]; exact hp
 
-theorem step_inv [DecidableEq R] (s : St R) (st : Step R) (h : Inv s) (hen : st.enabled s = true) :
-    Inv (st.apply s) := by
+theorem step_inv [DecidableEq R] (s : St R) (st : Step R) (h : Inv ex s) (hen : st.enabled s = true) :
+    Inv ex (st.apply s) := by
   unfold Inv at h ⊢
   cases st with
   | logAlloc ns => exact (h.append _).setWal _
@@ -71,8 +71,8 @@ theorem step_inv [DecidableEq R] (s : St R) (st : Step R) (h : Inv s) (hen : st.
     · exact h.marker m hh
   | engineCreate id nd =>
     refine ⟨h.usage, h.marker, ?_, h.nodup⟩
-    intro j h1 h2
-    apply h.inst j h1
+    intro j hne h1 h2
+    apply h.inst j hne h1
     have : runningCt (Step.apply s (Step.engineCreate id nd)) j = runningCt s j := by
       simp [runningCt, Step.apply]
     rw [← this]; exact h2
@@ -94,10 +94,10 @@ theorem step_inv [DecidableEq R] (s : St R) (st : Step R) (h : Inv s) (hen : st.
       have e : (if m0.1 = n then (m0.1, m0.2 - 1) else m0).1 = m0.1 := by split <;> rfl
       show pendingProc s.wal (if m0.1 = n then (m0.1, m0.2 - 1) else m0).1 = true
       rw [e]; exact this
-    · intro j h1 h2
+    · intro j hne h1 h2
       by_cases hj : id = j
       · rw [← hj]; exact hpc
-      · apply h.inst j
+      · apply h.inst j hne
         · simpa [recorded, Step.apply, hj] using h1
         · exact h2
     · show ((⟨id, n, r⟩ :: s.wls).map (·.id)).Nodup
@@ -110,8 +110,8 @@ theorem step_inv [DecidableEq R] (s : St R) (st : Step R) (h : Inv s) (hen : st.
       rw [hnr] at this; cases this
   | engineStart id =>
     refine ⟨h.usage, h.marker, ?_, h.nodup⟩
-    intro j h1 h2
-    apply h.inst j h1
+    intro j hne h1 h2
+    apply h.inst j hne h1
     cases hr : runningCt s j with
     | false => rfl
     | true =>
@@ -124,26 +124,26 @@ theorem step_inv [DecidableEq R] (s : St R) (st : Step R) (h : Inv s) (hen : st.
     simp only [Step.apply, List.mem_filter] at hm
     exact h.marker m hm.1
   | commitCreated id n =>
-    simp only [Step.enabled, Bool.or_eq_true, Bool.not_eq_true'] at hen
+    simp only [Step.enabled, Bool.or_eq_true, Bool.and_eq_true, Bool.not_eq_true'] at hen
     refine ⟨?_, ?_, ?_, h.nodup⟩
     · intro m; exact (h.usage m).imp (fun x => x) (fun hh => any_erase_of hh rfl)
     · intro m hm; exact pendingProc_erase (h.marker m hm) (by simp)
-    · intro j h1 h2
+    · intro j hne h1 h2
       have h1' : recorded s j = true := h1
       have h2' : runningCt s j = false := h2
       have hj : id ≠ j := by
         intro hj; subst hj
         rcases hen with hh | hh
-        · rw [hh] at h1'; cases h1'
-        · rw [hh] at h2'; cases h2'
-      exact any_erase_of (h.inst j h1' h2') (by simp [Ev.isCreated, hj])
+        · rw [hh.2] at h2'; cases h2'
+        · rw [hh.1] at h1'; cases h1'
+      exact any_erase_of (h.inst j hne h1' h2') (by simp [Ev.isCreated, hj])
   | commitProcessing n =>
     simp only [Step.enabled, List.all_eq_true, bne_iff_ne, ne_eq] at hen
     refine ⟨?_, ?_, ?_, h.nodup⟩
     · intro m; exact (h.usage m).imp (fun x => x) (fun hh => any_erase_of hh rfl)
     · intro m hm
       exact pendingProc_erase (h.marker m hm) (by simp; exact hen m hm)
-    · intro j h1 h2; exact any_erase_of (h.inst j h1 h2) rfl
+    · intro j hne h1 h2; exact any_erase_of (h.inst j hne h1 h2) rfl
   | commitAlloc ns =>
     simp only [Step.enabled, List.all_eq_true, decide_eq_true_eq] at hen
     refine ⟨?_, ?_, ?_, h.nodup⟩
@@ -154,15 +154,15 @@ theorem step_inv [DecidableEq R] (s : St R) (st : Step R) (h : Inv s) (hen : st.
         · left; exact hen m hm
         · right; exact any_erase_of hh (by simp [Ev.covers, hm])
     · intro m hm; exact pendingProc_erase (h.marker m hm) (by simp)
-    · intro j h1 h2; exact any_erase_of (h.inst j h1 h2) rfl
+    · intro j hne h1 h2; exact any_erase_of (h.inst j hne h1 h2) rfl
 
-theorem pre_inv (s : St R) (h : Pre s) : Inv s := by
+theorem pre_inv (s : St R) (h : Pre ex s) : Inv ex s := by
   unfold Inv
   refine ⟨fun n => Or.inl (h.consistent n), ?_, ?_, h.nodup⟩
   · intro m hm; rw [h.noMarker] at hm; cases hm
-  · intro id h1 h2; have := h.settled id h1; rw [this] at h2; cases h2
+  · intro id hne h1 h2; have := h.settled id hne h1; rw [this] at h2; cases h2
 
-theorem exec_inv [DecidableEq R] (tr : List (Step R)) : ∀ (s : St R), Inv s → validTrace s tr = true → Inv (exec s tr) := by
+theorem exec_inv [DecidableEq R] (tr : List (Step R)) : ∀ (s : St R), Inv ex s → validTrace s tr = true → Inv ex (exec s tr) := by
   induction tr with
   | nil => intro s h _; exact h
   | cons st rest ih =>
